@@ -20,6 +20,17 @@ fn filler(mode: Mode, len: usize, variant: usize) -> Vec<u8> {
             }
             v
         }
+        Mode::Byte if variant >= 100 => {
+            // lower-case text starting with one of the special tokens (byte-order marks, controls, schemes, escapes ...)
+            let mut v: Vec<u8> = (0..len).map(|i| b'a' + ((i * 7 + variant) % 26) as u8).collect();
+            let tok = crate::gens::TOKENS[(variant - 100) % crate::gens::TOKENS.len()];
+            let k = tok.len().min(len);
+            v[..k].copy_from_slice(&tok[..k]);
+            if len > 0 && classify(&v) != Mode::Byte {
+                v[len - 1] = b'~';
+            }
+            v
+        }
         Mode::Byte => {
             let mut v: Vec<u8> = (0..len).map(|i| (i * 37 + variant * 11 + 1) as u8).collect();
             if len > 0 {
@@ -537,6 +548,34 @@ pub fn run(e: &'static Engine) {
                 o.label("part:other_entry_points");
                 check_entry(c, o)
             });
+        }));
+    }
+    e.par(jobs);
+    // (7) Byte payloads that start with a special token (byte-order mark, line end, NUL, scheme, escape, ill-formed
+    // UTF-8 ...) at and just above every capacity threshold: the version depends on the LENGTH only, whatever the bytes
+    let mut jobs: Vec<Job> = Vec::new();
+    let versions: Vec<usize> = if e.tier == Tier::Thorough { (1..=40).collect() } else { vec![1, 2, 3, 4, 5, 6, 7, 8, 9, 10, 26, 27, 40] };
+    for v in versions {
+        jobs.push(Box::new(move |jc: &mut JobCtx| {
+            let ntok = crate::gens::TOKENS.len();
+            for &level in LEVELS.iter() {
+                let cap = capacity(v, level, Mode::Byte);
+                for d in 0..6usize {
+                    let len = (cap + d).saturating_sub(1);
+                    let toks: Vec<usize> = if v <= 8 || jc.engine.tier == Tier::Thorough { (0..ntok).collect() } else { (0..4).map(|k| (v * 7 + d * 13 + k * 17 + level as usize) % ntok).chain([0usize]).collect() };
+                    for t in toks {
+                        let forced = match (t + d) % 3 {
+                            0 => Some(v),
+                            _ => None,
+                        };
+                        let c = Case { payload_class: None, mode: Mode::Byte, level, len, forced, force_mode: (t + d) % 2 == 0, force_level: true, variant: 100 + t };
+                        jc.run_case(&c, to_json, |c, o| {
+                            o.label("part:thresholds_special_tokens");
+                            check(c, o)
+                        });
+                    }
+                }
+            }
         }));
     }
     e.par(jobs);
